@@ -14,9 +14,66 @@
    histories (the model refuses them like the code does). *)
 From Dastard Require Import Common.ZX Pipeline.Stream C01.Model C01.Spec C01.Proofs.
 
-(* Every record emitted by the edge / level / auto passes over any history is the exact excerpt of the ground
-   truth around its frame, has the configured lengths, and carries block time + (frame - block first frame) * period. *)
+(* MAIN STATEMENTS — no assumption on the source's frame numbering (frames may be lost between blocks).
+   [annotateG] gives for every delivered block g: the lengths in force, gi_G g = every sample delivered so far
+   including the block, the block gi_seg g, the records published for it.  A record's trigger sample is located in the
+   delivered samples by counting from the block being processed: index
+       j = (index of the block's first sample) + (r_frame - first frame of the block).
+   For a trigger sample inside that block r_frame is therefore exactly the source's frame number of the sample; for one
+   in the retained data it is the source's number provided no frames were lost in between (AppendSegment re-bases the
+   retained samples on the newest block: designed behaviour, baseline test TestStreamGap) — in particular always for a
+   contiguous source, see the second group of theorems. *)
 Theorem records_are_excerpts :
+  forall npre nsamp ts period ops,
+    lengths_ok npre nsamp = true -> nsamp <= max_nsamp -> Forall (op_ok period) ops ->
+    exists gs,
+      annotateG npre nsamp [] (combine ops (run (fresh_start npre nsamp ts) ops)) = Some gs /\
+      forall g r, In g gs -> In r (gi_recs g) ->
+        let j := zlen (gi_G g) - zlen (seg_data (gi_seg g)) + (r_frame r - seg_first (gi_seg g)) in
+        r_pre r = gi_npre g /\ zlen (r_data r) = gi_nsamp g /\
+        0 <= j - gi_npre g /\ j - gi_npre g + gi_nsamp g <= zlen (gi_G g) /\
+        r_data r = zslice (gi_G g) (j - gi_npre g) (gi_nsamp g) /\
+        r_time r = seg_time (gi_seg g) + (r_frame r - seg_first (gi_seg g)) * seg_period (gi_seg g) /\
+        r_signed r = seg_signed (gi_seg g).
+Proof. exact model_records_are_excerptsG. Qed.
+Print Assumptions records_are_excerpts.
+
+Theorem processing_never_panics :
+  forall npre nsamp ts period ops,
+    lengths_ok npre nsamp = true -> nsamp <= max_nsamp -> Forall (op_ok period) ops ->
+    length (run (fresh_start npre nsamp ts) ops) = length ops /\
+    ~ In OPanic (run (fresh_start npre nsamp ts) ops).
+Proof. exact model_never_panicsG. Qed.
+Print Assumptions processing_never_panics.
+
+(* The model's output passes the observable checker that the harness applies to the implementation's output. *)
+Theorem model_passes_checker :
+  forall npre nsamp ts period ops,
+    lengths_ok npre nsamp = true -> nsamp <= max_nsamp -> Forall (op_ok period) ops ->
+    C01G_check npre nsamp (combine ops (run (fresh_start npre nsamp ts) ops)) = true.
+Proof. exact model_C01G_check. Qed.
+Print Assumptions model_passes_checker.
+
+(* What the checker's "true" means for ANY observed history (model or implementation). *)
+Theorem checker_sound :
+  forall npre nsamp h,
+    C01G_check npre nsamp h = true ->
+    exists gs, annotateG npre nsamp [] h = Some gs /\
+      forall g r, In g gs -> In r (gi_recs g) ->
+        let j := zlen (gi_G g) - zlen (seg_data (gi_seg g)) + (r_frame r - seg_first (gi_seg g)) in
+        r_pre r = gi_npre g /\ zlen (r_data r) = gi_nsamp g /\
+        0 <= j - gi_npre g /\ j - gi_npre g + gi_nsamp g <= zlen (gi_G g) /\
+        r_data r = zslice (gi_G g) (j - gi_npre g) (gi_nsamp g) /\
+        r_time r = seg_time (gi_seg g) + (r_frame r - seg_first (gi_seg g)) * seg_period (gi_seg g) /\
+        r_signed r = seg_signed (gi_seg g).
+Proof. exact C01G_checker_sound. Qed.
+Print Assumptions checker_sound.
+
+(* ---- the same for a source that numbers its frames contiguously, with absolute frame numbers: the record's frame is
+   F0 + (index of its trigger sample in the ground truth) ----
+   Every record emitted by the edge / level / auto passes over any history is the exact excerpt of the ground
+   truth around its frame, has the configured lengths, and carries block time + (frame - block first frame) * period. *)
+Theorem records_are_excerpts_contiguous_source :
   forall npre nsamp ts F0 period ops,
     lengths_ok npre nsamp = true -> nsamp <= max_nsamp ->
     contiguous F0 ops -> Forall (op_ok period) ops ->
@@ -30,30 +87,30 @@ Theorem records_are_excerpts :
         r_time r = seg_time (bi_seg b) + (r_frame r - seg_first (bi_seg b)) * seg_period (bi_seg b) /\
         r_signed r = seg_signed (bi_seg b).
 Proof. exact model_records_are_excerpts. Qed.
-Print Assumptions records_are_excerpts.
+Print Assumptions records_are_excerpts_contiguous_source.
 
 (* No stream content, block pattern or control history makes processing crash: every index handed to
    triggerAtSpecificSamples and every index the scans read is in range, and no loop runs out of fuel. *)
-Theorem processing_never_panics :
+Theorem processing_never_panics_contiguous_source :
   forall npre nsamp ts F0 period ops,
     lengths_ok npre nsamp = true -> nsamp <= max_nsamp ->
     contiguous F0 ops -> Forall (op_ok period) ops ->
     length (run (fresh_start npre nsamp ts) ops) = length ops /\
     ~ In OPanic (run (fresh_start npre nsamp ts) ops).
 Proof. exact model_never_panics. Qed.
-Print Assumptions processing_never_panics.
+Print Assumptions processing_never_panics_contiguous_source.
 
 (* The model's output passes the observable checker that the harness applies to the implementation's output. *)
-Theorem model_passes_checker :
+Theorem model_passes_checker_contiguous_source :
   forall npre nsamp ts F0 period ops,
     lengths_ok npre nsamp = true -> nsamp <= max_nsamp ->
     contiguous F0 ops -> Forall (op_ok period) ops ->
     C01_check npre nsamp ts F0 (combine ops (run (fresh_start npre nsamp ts) ops)) = true.
 Proof. exact model_C01_check. Qed.
-Print Assumptions model_passes_checker.
+Print Assumptions model_passes_checker_contiguous_source.
 
 (* What the checker's "true" means for ANY observed history (model or implementation). *)
-Theorem checker_sound :
+Theorem checker_sound_contiguous_source :
   forall npre nsamp ts F0 h,
     C01_check npre nsamp ts F0 h = true ->
     exists bs, annotate F0 (init_sstate npre nsamp ts F0) h = Some bs /\
@@ -65,7 +122,7 @@ Theorem checker_sound :
         r_time r = seg_time (bi_seg b) + (r_frame r - seg_first (bi_seg b)) * seg_period (bi_seg b) /\
         r_signed r = seg_signed (bi_seg b).
 Proof. exact C01_checker_sound. Qed.
-Print Assumptions checker_sound.
+Print Assumptions checker_sound_contiguous_source.
 
 (* The ground truth the judgement uses really is what was delivered: for every annotated block, bi_G is the
    concatenation of the data of all blocks up to and including it, and the block continues it contiguously. *)
